@@ -1704,6 +1704,7 @@ var opForward = []struct{ fn, callee string }{
 	{"(*backend/remote.Remote).info", "(*net/http.Client).Do"},
 	// the replica resource the action gate (checkAction) and the controller's polls read: built from the server's current state
 	{"(*replica/rest.Server).Replica", "(*replica.Server).Status"},
+	{"(*replica/rest.Server).Replica", "replica/rest.NewReplica"},
 	{"(*backend/dynamic.Factory).VerifyReplicaAlive", "invoke:VerifyReplicaAlive"},
 	{"(*backend/dynamic.Factory).Create", "invoke:Create"},
 	{"(*backend/dynamic.Factory).SignalToAdd", "invoke:SignalToAdd"},
@@ -1776,7 +1777,7 @@ func ruleOpForward(rule string) ruleFn {
 			}
 			c.Guard(rule, fn, sites, "report success", nil, need)
 		}
-		if n < 27 {
+		if n < 28 {
 			c.Undecided(rule, "vacuity-floor", "", fmt.Sprintf("only %d data-path functions found", n))
 		}
 	}
